@@ -1,10 +1,55 @@
 /-
-  C12 — "Stream framing is independent of how the bytes arrive" (and the framer part of C09).
-  Property theorems only; helper lemmas are in Qfx/Lemmas/Framer.lean.
+  C12 — "Stream framing is independent of how the bytes arrive", and the framer part of C09
+  ("no bytes from the wire can crash the engine": no panic, no hang in parser.go).
+  Property theorems only; helper lemmas are in Qfx/Lemmas/Framer.lean.  Clause checklist at the end.
+
+  Model: Qfx.Model.Framer (parser.go function by function: buffer window, bigBuffer, shift / grow, re-scan after
+  every refill; the reader serves a list of chunks, a chunk larger than the room in several reads, an empty
+  chunk as a (0, nil) read, io.EOF with or after the last bytes).
+  Spec:  Qfx.Spec.Framer.framesWhole — frames and terminal error as a function of the whole byte stream.
 -/
-import Qfx.Model.Framer
-import Qfx.Spec.Framer
+import Qfx.Lemmas.Framer
 open Qfx Qfx.Framer Qfx.Spec
 
-/-- non-vacuity: the overflow guard matters — the original arithmetic yields a negative search offset -/
+/-- "The sequence of message frames (and the terminal error) extracted from a byte stream depends only on the
+    stream's content, not on how it is split into reads": for EVERY list of chunks (empty reads included, so the
+    hypothesis `∀ c ∈ cs, c ≠ []` of the design is not needed) and both ways a reader may report io.EOF,
+    what `readLoop`/`ReadMessage` extract is `framesWhole` of the concatenation. -/
+theorem C12_chunk_independent (eofd : Bool) (cs : List Bytes) :
+    framesChunked eofd cs = framesWhole cs.flatten := by
+  unfold framesChunked framesChunkedG framesWhole
+  rw [runG_eq _ _ (inv_init _), abs_init]
+
+/-- the same for the tree before the `fix:` commit: framing was chunk-independent there too — including the panic -/
+theorem C12_chunk_independent_orig (eofd : Bool) (cs : List Bytes) :
+    framesChunkedOrig eofd cs = framesWholeG false cs.flatten := by
+  unfold framesChunkedOrig framesChunkedG
+  rw [runG_eq _ _ (inv_init _), abs_init]
+
+/-- two partitions of one stream (and two EOF conventions) give the same frames and the same terminal error -/
+theorem C12_any_two_partitions (e1 e2 : Bool) (cs1 cs2 : List Bytes) (h : cs1.flatten = cs2.flatten) :
+    framesChunked e1 cs1 = framesChunked e2 cs2 := by
+  rw [C12_chunk_independent, C12_chunk_independent, h]
+
+/-- framer part of C09: whatever the bytes and the chunking, the parser does not panic (no slice expression out of
+    range, none reading stale bytes between len and cap) and never asks the reader for zero bytes (which would spin);
+    termination of every loop is by construction (`findIdx`: well-founded on unread chunks, `runG`: on buffered +
+    unread bytes) — `framesChunked` is a total function. -/
+theorem C12_no_fault (eofd : Bool) (cs : List Bytes) (w : String) :
+    (framesChunked eofd cs).end_ ≠ .fault w := by
+  rw [C12_chunk_independent]
+  exact framesWhole_no_fault _ w
+
+/-- …so every stream ends with an error value of `ReadMessage` (EOF or a BodyLength error) -/
+theorem C12_ends_with_error (eofd : Bool) (cs : List Bytes) : ∃ c, (framesChunked eofd cs).end_ = .err c := by
+  cases h : (framesChunked eofd cs).end_ with
+  | err c => exact ⟨c, rfl⟩
+  | fault w => exact (C12_no_fault eofd cs w h).elim
+
+/-- the defect repaired by the `fix:` commit: with the original arithmetic `offset + length` wraps negative … -/
 theorem C12_orig_overflow_witness : wrap64 ((15 : Int) + 9223372036854775807) < 0 := by decide
+
+/-- … and a negative offset passes the `offset > len(buffer)` test and panics in `p.buffer[offset:]` -/
+theorem C12_orig_negative_offset_faults (off : Int) (h : off < 0) (d : Bytes) (p : P) :
+    findIndexAfterOffset off d p = .fault "slice bounds out of range" := by
+  simp [findIndexAfterOffset, h]
